@@ -123,6 +123,26 @@ def check_c16(prop, tier, replay):
                   ])
 
 
+def check_c16_snapshotter(prop, tier, replay):
+    """third engine of C16: the real snapshotter on a strict in-memory file system, power lost at EVERY file-system
+    operation of save / commit / shrink / compact / the start of a receive, replica ids on both sides of 9 and 15"""
+    n, tr = (4, 2) if tier == "quick" else (8, 2)
+    batches = [{"first": k * tr, "traces": tr} for k in range(n)]
+    return tv_run(prop, tier, replay, harness_dirs=HARNESS, pkg=".", test="TestVerifSdsim",
+                  trace_module="SnapshotDirTrace", tag="SD-REPORT", count_tag="SD-COUNT",
+                  batches=batches, env_of=lambda b, seed, out: {"VERIF_OUT": out, "VERIF_FIRST": b["first"], "VERIF_TRACES": b["traces"]},
+                  mc=(), level="fault_enumeration", panic_ok=True, max_workers=8, build_name="nhsim", merge_into_existing=True,
+                  what="snapshot directory of the real snapshotter not crash-atomic: after a power loss at a file-system operation "
+                       "of save / commit / shrink / compact / receive the recorded snapshot is not on disk and complete, or the "
+                       "start-up cleanup left a temporary / orphaned directory behind",
+                  sig_of=lambda op, f: "C16:snapshotter:%s" % op,
+                  traces_of=lambda st, tr: tr,
+                  assumptions=["component level: the real snapshotter / SSEnv / snapshot files with a recording log store on the strict "
+                               "in-memory file system; every file-system operation of the second save+commit(+shrink)+compact and of "
+                               "the first file of a received snapshot is a crash point (enumerated, not sampled); replica ids 3, 12, "
+                               "27, 200 and senders 2, 11, 26"])
+
+
 def check_c20(prop, tier, replay):
     n, tr = (8, 15) if tier == "quick" else (24, 60)
     batches = [{"first": k * tr, "traces": tr, "mode": "import", "dur": 0,
